@@ -1,0 +1,33 @@
+//! Verification hooks (compiled only with the cargo feature `verif-hooks`)
+//!
+//! A yield point is a no-op unless a scheduler was installed on the calling thread.
+use std::cell::RefCell;
+use std::sync::Arc;
+
+/// A scheduler that is told about every yield point of the threads it was installed on
+pub trait Scheduler: Send + Sync {
+    /// called immediately before a lock acquisition (or another labelled step); may block
+    fn yield_point(&self, thread: usize, label: &'static str);
+}
+
+thread_local! {
+    static SCHED: RefCell<Option<(Arc<dyn Scheduler>, usize)>> = RefCell::new(None);
+}
+
+/// install a scheduler for the current thread
+pub fn install(s: Arc<dyn Scheduler>, thread: usize) {
+    SCHED.with(|c| *c.borrow_mut() = Some((s, thread)));
+}
+
+/// remove the scheduler of the current thread
+pub fn uninstall() {
+    SCHED.with(|c| *c.borrow_mut() = None);
+}
+
+/// yield point: no-op unless a scheduler is installed on this thread
+pub fn yield_point(label: &'static str) {
+    let s = SCHED.with(|c| c.borrow().clone());
+    if let Some((s, t)) = s {
+        s.yield_point(t, label);
+    }
+}
